@@ -135,11 +135,25 @@ func runTLSScenario(rec *recorder, id string, events []tlsEvent, cas map[string]
 	ctx, cancel := context.WithCancel(context.Background())
 	defer cancel()
 	pool := internal.NewTLSConfigPool(ctx)
-	file := filepath.Join(dir, strings.ReplaceAll(id, "/", "_")+".pem")
-	if err := os.WriteFile(file, cas["ca1"].pem, 0o600); err != nil {
+	// the configured CA path is a symbolic link into a data directory, as in a Kubernetes secret / configmap volume
+	// (ca.pem -> ..data/ca.pem): a rotation either rewrites the file or re-points the link to a new directory
+	base := filepath.Join(dir, strings.ReplaceAll(id, "/", "_"))
+	file := base + ".pem"
+	gen := 0
+	dataFile := func(g int) string { return filepath.Join(fmt.Sprintf("%s.d%d", base, g), "ca.pem") }
+	if err := os.MkdirAll(filepath.Dir(dataFile(0)), 0o700); err != nil {
 		return err
 	}
-	defer os.Remove(file)
+	if err := os.WriteFile(dataFile(0), cas["ca1"].pem, 0o600); err != nil {
+		return err
+	}
+	if err := os.Symlink(dataFile(0), file); err != nil {
+		return err
+	}
+	defer func() {
+		os.Remove(file)
+		os.RemoveAll(filepath.Dir(dataFile(gen)))
+	}()
 	rec.emit(map[string]any{"ev": "treset", "scenario": id})
 	var loaded []loadedCfg
 	dirty, refreshing := false, false
@@ -201,11 +215,30 @@ func runTLSScenario(rec *recorder, id string, events []tlsEvent, cas map[string]
 			if ca, ok := cas[e.Content]; ok {
 				data = ca.pem
 			}
-			if err := os.WriteFile(file, data, 0o600); err != nil {
+			rewrites++
+			how := (len(id)*7 + int(id[len(id)-1]) + rewrites) % 3 // which way this rotation is made varies with the scenario and the rotation
+			if how == 0 {
+				// re-point the link: new data directory, atomic swap of the link, old directory removed
+				if err := os.MkdirAll(filepath.Dir(dataFile(gen+1)), 0o700); err != nil {
+					return err
+				}
+				if err := os.WriteFile(dataFile(gen+1), data, 0o600); err != nil {
+					return err
+				}
+				tmp := file + ".tmp"
+				_ = os.Remove(tmp)
+				if err := os.Symlink(dataFile(gen+1), tmp); err != nil {
+					return err
+				}
+				if err := os.Rename(tmp, file); err != nil {
+					return err
+				}
+				_ = os.RemoveAll(filepath.Dir(dataFile(gen)))
+				gen++
+			} else if err := os.WriteFile(file, data, 0o600); err != nil {
 				return err
 			}
-			rewrites++
-			if rewrites%2 == 0 {
+			if how == 2 {
 				// a roll-back (mv of a backup, cp -p): the new content carries an OLDER modification time than the one it replaces
 				old := time.Now().Add(-time.Duration(rewrites) * time.Hour)
 				_ = os.Chtimes(file, old, old)
